@@ -203,6 +203,10 @@ def _install_queue_watch():
             QUEUE_OPS["blocking_calls"] += 1
             if self.qsize() >= self.maxsize:
                 QUEUE_OPS["would_block"].append(("put", get_role()[0], sorted(l.name for l in _held()), _site()))
+                if timeout is None:
+                    # the caller would now sleep, with the locks it holds, until another thread takes an item:
+                    # recorded above; do not really park the workload on it
+                    raise queue.Full
         return real_put(self, item, block, timeout)
 
     def get(self, block=True, timeout=None):
@@ -210,6 +214,8 @@ def _install_queue_watch():
             QUEUE_OPS["blocking_calls"] += 1
             if self.qsize() == 0:
                 QUEUE_OPS["would_block"].append(("get", get_role()[0], sorted(l.name for l in _held()), _site()))
+                if timeout is None:
+                    raise queue.Empty
         return real_get(self, block, timeout)
 
     queue.Queue.put = put
